@@ -23,6 +23,21 @@ TLA_CP = "/opt/veriftools/tla/tla2tools.jar:/opt/veriftools/tla/CommunityModules
 NCPU = os.cpu_count() or 4
 
 
+def default_workers():
+    """TLC worker count: VERIF_TLC_WORKERS, else /verif/.work/tlc_workers (a local, uncommitted throttle used while many
+    builders share the machine), else all cores (max 16)."""
+    v = os.environ.get("VERIF_TLC_WORKERS")
+    if not v:
+        try:
+            v = open(os.path.join(VERIF, ".work", "tlc_workers")).read().strip()
+        except Exception:
+            v = ""
+    try:
+        return max(1, min(int(v), NCPU))
+    except Exception:
+        return min(NCPU, 16)
+
+
 class Inconclusive(Exception):
     pass
 
@@ -85,7 +100,7 @@ class Ctx:
         md = tempfile.mkdtemp(prefix="md-", dir=self.work)
         cmd = ["java", "-XX:+UseParallelGC", "-Xss256m"]
         cmd.append("-Xmx" + (heap or "8g"))
-        cmd += ["-cp", TLA_CP, "tlc2.TLC", "-workers", str(workers or min(NCPU, 16)), "-metadir", md,
+        cmd += ["-cp", TLA_CP, "tlc2.TLC", "-workers", str(workers or default_workers()), "-metadir", md,
                 "-config", os.path.join("cfg", cfg), "-noGenerateSpecTE"]
         if not deadlock:
             cmd.append("-deadlock")
@@ -131,7 +146,7 @@ class Ctx:
         Returns de-duplicated behaviours (lists of step records)."""
         d = self._spec_dir()
         seed = self.seed if seed is None else seed
-        procs = procs or min(8, NCPU)
+        procs = procs or min(8, default_workers())
         per = (num + procs - 1) // procs
         ps = []
         for i in range(procs):
